@@ -7,6 +7,7 @@ from ..lockstep import ExpandingTracker
 from .C13 import rule_T9, G_UNION
 from ..rowfacts import rule_M1
 from ..memo import rule_K2
+from ..volumes import rule_V2
 
 LEVEL_TEXT = ('Weak structural claim only: the pool path merges exactly the counters the serial '
               'path advances; counters describe the rows actually cached; acceptance depends on '
@@ -22,6 +23,7 @@ def run(ctx):
     rule_Q1_Q2(ctx)
     rule_N2(ctx)
     rule_M1(ctx)      # what sample() hands out is inside the region contains() accepts
+    rule_V2(ctx)      # the closed-form volumes, as exact algebra
     rule_K2(ctx)      # a cached volume is invalidated by every counter update (serial and pool)
     for q in ('Union.split', 'Union.trim'):     # counters restart when the member set changes
         fq = prog.func(q)
@@ -33,6 +35,8 @@ def run(ctx):
         rule_P9(ctx, rd, _ctor_obj(rd))
     ctx.floor('A3', 5, 'merge obligations')
     ctx.floor('T8', 4, 'accounting obligations')
+    ctx.floor('V2', 12, 'volume-algebra obligations')
     ctx.not_decided += ['uniformity of proposals and calibration of volumes as distributional '
                         'statements (the heart of the property)',
-                        'closed-form ellipsoid volume vs the matrix that defines contains()']
+                        'floating-point evaluation of the volume formulas; that '
+                        'minimum_volume_enclosing_ellipsoid returns A and its inverse']
